@@ -632,6 +632,43 @@ theorem xanyof_round_trip_example :
         | .ok (.inst "Ev" [("when", .int 3)]) => true | _ => false) = true := by
   decide
 
+/-! ### classes with _enable_undefined_value -/
+
+/-- **C05 for `_enable_undefined_value` classes**: an Optional attribute is in one of THREE states - set, explicitly
+    None, left out (Undefined).  The serialized object tells them apart (value / null / no key) and
+    `Deserializer(cls).deserialize(Serializer(x).serialize())` gives back exactly `x`, None attributes included -/
+theorem xclass_undefined_round_trip_partial (XO : XOracles) (opts : DeserOpts) (c : ClassOpts)
+    (fields : List (String × XDecl)) (x : PyVal)
+    (hf : xFrag XO (.structU c fields) x = true) :
+    ∃ j, serializeX XO (.structU c fields) x = .ok j ∧ isJson j = true
+      ∧ deserializeX XO opts (.structU c fields) j = .ok x := by
+  rcases xround_trip XO opts (.structU c fields) x hf with ⟨j, h1, h2, _, h4, _⟩
+  have hj : ∃ r, j = .dict r := by
+    simp only [xFrag, and_true_iff] at hf
+    cases x with
+    | inst n attrs =>
+      simp only [serX, sInstU] at h1
+      split at h1
+      · cases h1
+      · rcases bindE_eq_ok h1 with ⟨r, _, hr⟩
+        exact ⟨r, by cases hr; rfl⟩
+    | _ => simp at hf
+  rcases hj with ⟨r, rfl⟩
+  exact ⟨.dict r, h1, h2, by simpa [deserializeX] using h4⟩
+
+theorem xclass_undefined_round_trip_example :
+    let cls : XDecl := .structU { name := "U", required := ["d"], accepts := ["U"] }
+      [("a", .opt (.base (.integer {}))), ("b", .opt exLevel), ("d", .base (.integer {}))]
+    let x : PyVal := .inst "U" [("a", .none), ("d", .int 0)]          -- a: explicitly None, b: Undefined
+    xFrag exXO cls x = true
+    ∧ (match serializeX exXO cls x with
+        | .ok (.dict [(.str "a", .none), (.str "d", .int 0)]) => true | _ => false) = true
+    ∧ (match deserializeX exXO {} cls (.dict [(.str "a", .none), (.str "d", .int 0)]) with
+        | .ok (.inst "U" [("a", .none), ("d", .int 0)]) => true | _ => false) = true
+    ∧ (match deserializeX exXO {} cls (.dict [(.str "d", .int 0)]) with
+        | .ok (.inst "U" [("d", .int 0)]) => true | _ => false) = true := by
+  decide
+
 /-! ### compact single-field wrappers -/
 
 /-- **C05, compact single-field wrappers**: a class with exactly one field, required, additional properties off,
